@@ -1,3 +1,11 @@
--- This module serves as the root of the `NLE` library.
--- Import modules here that should be built as part of the library.
-import NLE.Basic
+-- Root of the `NLE` library: everything `lake build NLE` must check.
+import NLE.Model.Text
+import NLE.Model.Config
+import NLE.Model.Classify
+import NLE.Model.Backoff
+import NLE.Model.Validate
+import NLE.Driver.Pure
+import NLE.Theorems.C04
+import NLE.Theorems.C15
+import NLE.Theorems.C16
+import NLE.Theorems.C17
